@@ -80,6 +80,74 @@ def run_os(kind, script, calls, budget=None):
     return out
 
 
+class OSXSession:
+    """one real OpenSpielWrapper driven call by call with the richer alphabet
+    ["r"] reset | ["s", acts] step | ["p", idx] `wrapper.current_player = <id of agent idx>` through the public
+    setter (idx >= n: an id that is not in the simulation).  `out` is the canonical trace; `marks` are
+    harness-side notes per call (not sent to the model): was the setter's target in the manager's done set."""
+
+    def __init__(self, kind, script, shadow=False):
+        self.kind, self.script = kind, script
+        self.sim, self.manager, self.trace = _mk(kind, script, True)
+        self.env = OpenSpielWrapper(self.manager)
+        self.out, self.marks, self.calls = [], [], []
+        self.dead = False
+        # a second wrapper over a second manager (same script) in the same process: it is driven alongside, its
+        # current player is set to *other* agents; nothing of it may show in the first one's trace
+        self.shadow = None
+        if shadow:
+            sim2, manager2, _ = _mk(kind, script, True)
+            self.shadow = (sim2, OpenSpielWrapper(manager2))
+
+    def agent_id(self, idx):
+        return self.sim.ids[idx] if idx < self.sim.n else "nobody%d" % idx
+
+    def done_learners(self):
+        da = getattr(self.manager, "done_agents", set())
+        return [i for i in range(self.sim.n) if self.sim.learning[i] and self.sim.ids[i] in da]
+
+    def running(self):
+        return not self.env._should_reset      # harness-side peek, only used to steer the generator
+
+    def call(self, c):
+        assert not self.dead
+        env, sim = self.env, self.sim
+        before = len(self.trace)
+        self.calls.append(c)
+        if c[0] == "p":
+            aid = self.agent_id(c[1])
+            self.marks.append("done" if c[1] in self.done_learners() and self.running() else "")
+            st, _ = mgr.guarded(lambda: setattr(env, "current_player", aid))
+            self.out.append(["set", st])
+            if self.shadow:
+                sim2, env2 = self.shadow
+                other = sim2.ids[(c[1] + 1) % sim2.n]
+                mgr.guarded(lambda: setattr(env2, "current_player", other))
+        else:
+            self.marks.append("")
+            if c[0] == "r":
+                st, val = mgr.guarded(lambda: env.reset())
+            else:
+                st, val = mgr.guarded(lambda: env.step(list(c[1])))
+            ents = [[op, _decode_entry(e)] for op, e in self.trace[before:]]
+            self.out.append([canon_ts(sim, val) if st == "ok" else ["err", st], ents])
+            if self.shadow:
+                env2 = self.shadow[1]
+                mgr.guarded(lambda: env2.reset() if c[0] == "r" else env2.step(list(c[1])))
+        if st not in ("ok", "rejected"):
+            self.dead = True
+        return self.out[-1]
+
+
+def run_osx(kind, script, calls, shadow=False):
+    s = OSXSession(kind, script, shadow)
+    for c in calls:
+        s.call(c)
+        if s.dead:
+            break
+    return s
+
+
 def _decode_entry(e):
     res = e[0]
     if res[0] == "r":
@@ -96,7 +164,13 @@ class AdapterProp(core.Prop):
             "simultaneous) over the real managers over the scripted stub; OpenSpiel-style callers keep sending "
             "actions for every agent; exhaustive small done schedules, then seeded random; the play-through is "
             "cut by a step budget of 4x the script length (a livelock is a failing input); distinct by (adapter, "
-            "manager, script, calls); non-trivial = an agent finishes before the episode ends")
+            "manager, script, calls); non-trivial = an agent finishes before the episode ends.  Setter stream "
+            "(tag `setter`): the same wrappers driven with the alphabet reset | step | `current_player = id` through "
+            "the public setter (learning agents, done and live, non-learning agents and unknown ids -> "
+            "AssertionError), steered by the manager's done set towards 'name an agent that is already done, then "
+            "step, then keep stepping' (the fake-step path), before the first reset, mid-episode, after LAST, with "
+            "explicit resets, ill-formed action lists and a second wrapper in the same process; judged by "
+            "specC15X (the property) - specC15Xw is what is proved of the model")
     assumptions = ["TimeStep/StepType containers of open_spiel are compared field by field, not modelled",
                    "discounts are constants and not compared"]
 
@@ -124,10 +198,89 @@ class AdapterProp(core.Prop):
             tags.append("fake-step")
         return core.Case(desc, line, wire.enc(tr), key=json.dumps(desc, sort_keys=True), nontrivial=early, tags=tags)
 
+    def _osx_case(self, kind, script, calls=None, session=None, shadow=False):
+        """a case of the setter alphabet, from a finished session (generator) or from its calls (replay)"""
+        s = session if session is not None else run_osx(kind, script, calls, shadow)
+        tr, calls = s.out, s.calls[:len(s.out)]
+        wcalls = [["r"] if c[0] == "r" else ["s", list(c[1])] if c[0] == "s" else ["p", c[1]] for c in calls]
+        line = wire.enc(["ospielx", kind, script_to_wire(script), wcalls, tr])
+        desc = {"adapter": "ospielx", "kind": kind, "script": script, "calls": calls}
+        if s.shadow:
+            desc["shadow"] = True
+        steps = [it for it in tr if it[0] != "set"]
+        lasts = sum(1 for it in steps if it[0][0] == "ok" and it[0][5] == "last")
+        early = any(any(d for _, d in e[1][0][3]) for it in steps for e in it[1] if e[1][0][0] == "s")
+        tags = ["ospielx", "setter", mgr.KINDS[kind], "episodes:%d" % min(lasts, 3)]
+        tags += ["err:" + it[0][1] for it in steps if it[0][0] == "err"]
+        nset = sum(1 for it in tr if it[0] == "set")
+        if any(it[0] == "set" and it[1] == "rejected" for it in tr):
+            tags.append("setter:rejected")
+        if "done" in s.marks:
+            tags.append("setter:done-agent")
+        fake = [i for i, it in enumerate(tr) if it[0] != "set" and it[0][0] == "ok" and not it[1]]
+        if fake:
+            tags.append("fake-step")
+            if any(it[0] != "set" for it in tr[fake[0] + 1:]):
+                tags.append("fake-step:kept-stepping")
+            if any(i + 1 in fake for i in fake):
+                tags.append("fake-step:repeated")
+            if any(it[0] != "set" and it[1] for it in tr[fake[0] + 1:]):
+                tags.append("fake-step:then-forwarded")
+        if s.shadow:
+            tags.append("second-wrapper")
+        return core.Case(desc, line, wire.enc(tr), key=json.dumps(desc, sort_keys=True),
+                         nontrivial=early and nset > 0, tags=tags)
+
     def case_from_desc(self, d):
         if d["adapter"] == "gym":
             return self._gym_case(d["kind"], d["script"], d["agent"], d["calls"])
+        if d["adapter"] == "ospielx":
+            return self._osx_case(d["kind"], d["script"], d["calls"], shadow=bool(d.get("shadow")))
         return self._os_case(d["kind"], d["script"], d["calls"])
+
+    def _osx_session(self, rng, kind, script, length, shadow=False, p_set=0.25, p_reset=0.04, p_bad=0.0):
+        """drive a real wrapper, choosing each call with a look at the manager's done set: name a done agent
+        through the setter, step, keep stepping; also live agents, non-learners, unknown ids, resets"""
+        s = OSXSession(kind, script, shadow)
+        n, nl = script["n"], sum(script["learning"])
+        learners = [i for i in range(n) if script["learning"][i]]
+        others = [i for i in range(n) if not script["learning"][i]]
+
+        def step():
+            if rng.random() < p_bad:
+                return ["s", [rng.randrange(10) for _ in range(rng.choice([0, nl + 1, max(0, nl - 1)]))]]
+            return ["s", [rng.randrange(10) for _ in range(1 if kind == 1 else nl)]]
+
+        plan = []
+        if rng.random() < 0.15:
+            plan.append(["p", rng.choice(learners)])       # before the first reset
+        while len(s.calls) < length and not s.dead:
+            if plan:
+                s.call(plan.pop(0))
+                continue
+            r = rng.random()
+            done = s.done_learners() if s.running() else []
+            if r < p_reset:
+                s.call(["r"])
+            elif r < p_reset + p_set or (done and r < p_reset + 2 * p_set):
+                q = rng.random()
+                if done and q < 0.7:
+                    tgt = rng.choice(done)
+                    # then step, and keep stepping
+                    plan = [step() for _ in range(rng.choice([1, 1, 2, 3, 4]))]
+                elif q < 0.85:
+                    tgt = rng.choice(learners)
+                    plan = [step() for _ in range(rng.choice([0, 1, 2]))]
+                elif others and q < 0.93:
+                    tgt = rng.choice(others)
+                else:
+                    tgt = n + rng.randrange(3)
+                s.call(["p", tgt])
+                if rng.random() < 0.15:
+                    plan.insert(0, ["p", rng.choice(learners)])    # two setter calls in a row: the last one counts
+            else:
+                s.call(step())
+        return s
 
     @staticmethod
     def _os_calls(rng, kind, script, length, p_reset=0.03, p_bad=0.0):
@@ -158,6 +311,24 @@ class AdapterProp(core.Prop):
                 for kind in (0, 1):
                     calls = [["r"]] + [["s", rng.randrange(10)] for _ in range(mt + 2)]
                     yield self._gym_case(kind, script, ag, calls)
+        # the setter stream: every small done schedule turn-based (simultaneous: every third), then seeded random
+        for i, script in enumerate(mgr.exhaustive_scripts(ml, mn, mt)):
+            nl = sum(script["learning"])
+            for kind in (1, 0):
+                if kind == 0 and i % 3:
+                    continue
+                budget = 2 * (mt + 3) * max(1, nl) + 4
+                yield self._osx_case(kind, script, session=self._osx_session(
+                    rng, kind, script, budget, p_set=0.3 if kind == 1 else 0.2, p_reset=0.02))
+        for _ in range(350 if quick else 4000):
+            script = mgr.gen_script(rng)
+            script["noms"] = []
+            script = {k: script[k] for k in ("n", "learning", "doneAt", "finishAt", "noms")}
+            kind = 1 if rng.random() < 0.7 else 0
+            shadow = rng.random() < 0.15
+            yield self._osx_case(kind, script, session=self._osx_session(
+                rng, kind, script, rng.randint(3, 40), shadow=shadow, p_set=rng.choice([0.1, 0.25, 0.4]),
+                p_reset=rng.choice([0.0, 0.04, 0.1]), p_bad=0.03 if rng.random() < 0.3 else 0.0))
         for _ in range(1200 if quick else 40000):
             script = mgr.gen_script(rng)
             script["noms"] = []
@@ -175,12 +346,35 @@ class AdapterProp(core.Prop):
                                                                  p_bad=0.02 if rng.random() < 0.3 else 0.0))
 
     def interpret(self, reply, case):
+        if case.desc["adapter"] == "ospielx":
+            # (modelTrace, specC15Xw on the model = the proved predicate, specC15X on the implementation = the
+            #  property, specC15Xw on the implementation)
+            model, ms, is_, iw = reply
+            if is_ not in (0, 1) or iw not in (0, 1):
+                raise ValueError("driver could not parse the implementation trace")
+            return core.Verdict(wire.enc(model), ms == 1, is_ == 1, detail={"specC15Xw_on_impl": iw == 1})
         model, ms, is_ = reply
         if is_ not in (0, 1):
             raise ValueError("driver could not parse the implementation trace")
         return core.Verdict(wire.enc(model), ms == 1, is_ == 1)
 
+    def finding_matchers(self):
+        def c15_k1(case, v):
+            """turn-based play with the setter; the implementation's trace is exactly the model's; the property
+            (specC15X) is false and the only false conjunct is the current player named by a fake step
+            (specC15Xw, which merely pins it to the first learning agent, holds)"""
+            d = case.desc
+            return (d["adapter"] == "ospielx" and d["kind"] == 1 and any(c[0] == "p" for c in d["calls"])
+                    and v.impl_spec is False and bool(v.detail) and v.detail.get("specC15Xw_on_impl") is True
+                    and v.model == case.impl)
+        return {"C15-K1": c15_k1}
+
     def shrink_candidates(self, desc):
         calls = desc["calls"]
         for k in range(len(calls) - 1, 0, -1):
             yield dict(desc, calls=calls[:k])
+        if desc["adapter"] == "ospielx":
+            if desc.get("shadow"):
+                yield {k: v for k, v in desc.items() if k != "shadow"}
+            for k in range(len(calls) - 1):
+                yield dict(desc, calls=calls[:k] + calls[k + 1:])
